@@ -55,7 +55,7 @@ class _State:
 
         # Can't define states that are named the same as things in the
         # base class, will cause issues. Catch it early.
-        if hasattr(StateMachine, name):
+        if hasattr(StateMachine, name) or name in StateMachine.__annotations__:
             raise InvalidStateName(f"cannot have a state named '{name}'")
 
         # inspect the args, provide a correct call implementation
